@@ -35,6 +35,7 @@ type fnSpec struct {
 	calls            map[string]string // Go callee (canonical text) -> Lean function; "list:f" = f applied to the list of arguments
 	methods          map[string]string // method name -> Lean function taking the receiver first
 	ignore           []string          // prefixes of expression statements that are skipped (logging)
+	fuelled          bool              // a recursive traversal: emitted with a fuel argument (0 = stop)
 	named            string            // name of the named result a bare `return` yields ("" = none)
 	mapVar           string            // the map a fold-loop updates
 	state            string            // Go expression of the list a void function updates in place ("" = none); Lean name `files`
@@ -309,6 +310,12 @@ func (c *cg) ret(r *ast.ReturnStmt) string {
 			return "(Except.ok " + c.expr(r.Results[0]) + ")"
 		}
 		return "(Except.error " + c.expr(r.Results[1]) + ")"
+	case "cacheq":
+		// an accessor that answers from the memo it may just have filled: (memo afterwards, answer)
+		if len(r.Results) != 1 {
+			return c.fail("return with %d results", len(r.Results))
+		}
+		return "(cache, " + c.expr(r.Results[0]) + ")"
 	case "opt":
 		if len(r.Results) != 1 {
 			return c.fail("return with %d results", len(r.Results))
@@ -322,6 +329,81 @@ func (c *cg) ret(r *ast.ReturnStmt) string {
 		return c.fail("return with %d results", len(r.Results))
 	}
 	return c.expr(r.Results[0])
+}
+
+// visitLoop: `for _, d := range L { if _, seen := set[key(d)]; !seen { set[key(d)] = d; d.visit(set) } }` -
+// the depth-first traversal with a visited set. The set is keyed by the entity's fully-qualified
+// name, which identifies it; in Lean it is the list of visited entities. The recursive call is looked
+// up in the dictionary under "visit:<method>" (the function to continue with, given fuel).
+func (c *cg) visitLoop(r *ast.RangeStmt) (string, bool) {
+	d, _ := r.Value.(*ast.Ident)
+	if d == nil || len(r.Body.List) != 1 {
+		return "", false
+	}
+	ifs, ok := r.Body.List[0].(*ast.IfStmt)
+	if !ok || ifs.Else != nil || len(ifs.Body.List) != 2 {
+		return "", false
+	}
+	init, ok := ifs.Init.(*ast.AssignStmt)
+	if !ok || len(init.Lhs) != 2 || len(init.Rhs) != 1 || exprText(init.Lhs[0]) != "_" {
+		return "", false
+	}
+	seen := exprText(init.Lhs[1])
+	look, ok := init.Rhs[0].(*ast.IndexExpr)
+	if !ok || exprText(ifs.Cond) != "!"+seen {
+		return "", false
+	}
+	set := exprText(look.X)
+	key := exprText(look.Index)
+	if key != d.Name+".FullyQualifiedName()" {
+		return "", false
+	}
+	as, ok := ifs.Body.List[0].(*ast.AssignStmt)
+	if !ok || len(as.Lhs) != 1 || exprText(as.Lhs[0]) != set+"["+key+"]" || exprText(as.Rhs[0]) != d.Name {
+		return "", false
+	}
+	es, ok := ifs.Body.List[1].(*ast.ExprStmt)
+	if !ok {
+		return "", false
+	}
+	call, ok := es.X.(*ast.CallExpr)
+	if !ok || len(call.Args) != 1 || exprText(call.Args[0]) != set {
+		return "", false
+	}
+	sel, ok := call.Fun.(*ast.SelectorExpr)
+	if !ok || exprText(sel.X) != d.Name {
+		return "", false
+	}
+	cont, ok := c.s.calls["visit:"+sel.Sel.Name]
+	if !ok {
+		return "", false
+	}
+	c.s.locals[d.Name] = true
+	sv := leanIdent(set)
+	dv := leanIdent(d.Name)
+	return "let " + sv + " := List.foldl (fun " + sv + " " + dv + " => if List.contains " + sv + " " + dv + " then " + sv + " else " + cont + " " + dv + " (" + dv + " :: " + sv + ")) " + sv + " " + c.expr(r.X), true
+}
+
+// filterAppendLoop: `for k, v := range M { if C { acc = append(acc, v) } }` over a set keyed by name
+func (c *cg) filterAppendLoop(r *ast.RangeStmt) (string, bool) {
+	if len(r.Body.List) != 1 {
+		return "", false
+	}
+	k, _ := r.Key.(*ast.Ident)
+	v, _ := r.Value.(*ast.Ident)
+	ifs, ok := r.Body.List[0].(*ast.IfStmt)
+	if k == nil || v == nil || !ok || ifs.Init != nil || ifs.Else != nil || len(ifs.Body.List) != 1 {
+		return "", false
+	}
+	acc, e, ok := appendOf(ifs.Body.List[0])
+	if !ok || exprText(e) != v.Name {
+		return "", false
+	}
+	pred, ok := c.s.exprs["filter:"+exprText(ifs.Cond)]
+	if !ok {
+		return "", false
+	}
+	return "let " + leanIdent(acc) + " := " + leanIdent(acc) + " ++ List.filter (fun " + leanIdent(v.Name) + " => " + pred + ") " + c.expr(r.X), true
 }
 
 // appendOf: `acc = append(acc, E)` -> (acc, E)
@@ -444,6 +526,9 @@ func (c *cg) foldAssignLoop(r *ast.RangeStmt) (string, bool) {
 func (c *cg) stateResult() string {
 	if c.s.mode == "err" {
 		return "(Except.ok files)"
+	}
+	if c.s.mode == "cache" {
+		return "cache"
 	}
 	return "files"
 }
@@ -584,6 +669,12 @@ func (c *cg) stmts(list []ast.Stmt, k func(ind string) string, ind string) strin
 				}
 			}
 		}
+		if out, ok := c.visitLoop(s); ok {
+			return ind + out + "\n" + rest(ind)
+		}
+		if out, ok := c.filterAppendLoop(s); ok {
+			return ind + out + "\n" + rest(ind)
+		}
 		if out, ok := c.mapAppendLoop(s); ok {
 			return ind + out + "\n" + rest(ind)
 		}
@@ -645,6 +736,9 @@ func (c *cg) stmts(list []ast.Stmt, k func(ind string) string, ind string) strin
 		// the list a void function updates in place
 		if c.s.state != "" && len(s.Lhs) == 1 && len(s.Rhs) == 1 && s.Tok == token.ASSIGN {
 			if exprText(s.Lhs[0]) == c.s.state {
+				if c.s.mode == "cache" { // the memo is a pointer-like field: assigning a value fills it
+					return ind + "let cache := some " + c.expr(s.Rhs[0]) + "\n" + rest(ind)
+				}
 				return ind + "let files := " + c.expr(s.Rhs[0]) + "\n" + rest(ind)
 			}
 			if ix, ok := s.Lhs[0].(*ast.IndexExpr); ok && exprText(ix.X) == c.s.state {
@@ -686,6 +780,20 @@ func (c *cg) stmts(list []ast.Stmt, k func(ind string) string, ind string) strin
 		}
 		return ind + c.fail("declaration")
 	case *ast.ExprStmt:
+		// m.populateCache(): a call that updates the memo (the state)
+		if call, ok := s.X.(*ast.CallExpr); ok && len(call.Args) == 0 {
+			if f, ok := c.s.calls["updstate:"+exprText(call.Fun)]; ok {
+				return ind + "let cache := " + f + " cache\n" + rest(ind)
+			}
+		}
+		// x.walk(set): a call that fills the local set it is handed
+		if call, ok := s.X.(*ast.CallExpr); ok && len(call.Args) == 1 {
+			if f, ok := c.s.calls["upd:"+exprText(call.Fun)]; ok {
+				if id, ok := call.Args[0].(*ast.Ident); ok && c.s.locals[id.Name] {
+					return ind + "let " + leanIdent(id.Name) + " := " + f + " " + leanIdent(id.Name) + "\n" + rest(ind)
+				}
+			}
+		}
 		// sort.Strings(x): x sorted in place
 		if call, ok := s.X.(*ast.CallExpr); ok && exprText(call.Fun) == "sort.Strings" && len(call.Args) == 1 {
 			if id, ok := call.Args[0].(*ast.Ident); ok && c.s.locals[id.Name] {
@@ -929,6 +1037,9 @@ func translate(repo string, s *fnSpec) (string, error) {
 		default:
 			return "", fmt.Errorf("%s.%s (%s): statement of kind %T", s.recv, s.name, s.file, st)
 		}
+	} else if s.mode == "setret" {
+		// a void function that fills the set it was handed: the set after its statements
+		body = c.stmts(fd.Body.List, func(ind string) string { return ind + "set" }, "  ")
 	} else {
 		body = c.stmts(fd.Body.List, nil, "  ")
 	}
@@ -938,6 +1049,11 @@ func translate(repo string, s *fnSpec) (string, error) {
 	who := s.name
 	if s.recv != "" {
 		who = "(" + s.recv + ") " + s.name
+	}
+	if s.fuelled {
+		// def f (params) : Nat -> args -> ret   with the body under `fuel + 1` and the identity at 0
+		return fmt.Sprintf("/-- %s: `%s`%s (recursion bounded by fuel: one unit per level of the traversal) -/\ndef %s %s : %s\n  | 0, _, set => set\n  | fuel + 1, self, set =>\n  %s\n",
+			s.file, who, s.doc, s.lean, s.binders, s.ret, strings.ReplaceAll(body, "\n", "\n  ")), nil
 	}
 	return fmt.Sprintf("/-- %s: `%s`%s -/\ndef %s %s : %s :=\n%s\n", s.file, who, s.doc, s.lean, s.binders, s.ret, body), nil
 }
@@ -1034,6 +1150,22 @@ func perSpec(name, lean, binders, ret, mode string, pn []string) *fnSpec {
 	return sp
 }
 
+// clSpec: `populate…Cache`: fills the memo unless it is filled (the memo is the state; nil = none)
+func clSpec(file, recv, rn, name, lean, cache, walker string) *fnSpec {
+	return &fnSpec{file: file, recv: recv, name: name, lean: lean, rn: rn, mode: "cache", state: cache,
+		binders: "(walk : Pgs.AST.Ref → List Pgs.AST.Ref → List Pgs.AST.Ref) (self : Pgs.AST.Ref) (cache : Option (List Pgs.AST.Ref))", ret: "Option (List Pgs.AST.Ref)",
+		exprs: map[string]string{cache + " != nil": "cache.isSome", "map[string]Message{}": "([] : List Pgs.AST.Ref)", "set": "set"},
+		calls: map[string]string{"upd:" + walker: "walk self"}}
+}
+
+// accSpec: `Dependents()` / `Dependencies()`: fill the memo if need be, answer from it
+func accSpec(file, recv, rn, name, lean, populate, populateLean, cache, nameExpr, nameLean string) *fnSpec {
+	return &fnSpec{file: file, recv: recv, name: name, lean: lean, rn: rn, mode: "cacheq", state: cache,
+		binders: "(walk : Pgs.AST.Ref → List Pgs.AST.Ref → List Pgs.AST.Ref) (self : Pgs.AST.Ref) (cache : Option (List Pgs.AST.Ref))", ret: "Option (List Pgs.AST.Ref) × List Pgs.AST.Ref",
+		exprs: map[string]string{cache: "(cache.getD [])", nameExpr: nameLean},
+		calls: map[string]string{"updstate:" + populate: populateLean + " walk self", "messageSetToSlice": "messageSetToSlice"}}
+}
+
 func codeSpecs() []*fnSpec {
 	return []*fnSpec{
 		// C11
@@ -1095,6 +1227,31 @@ func codeSpecs() []*fnSpec {
 			exprs: map[string]string{"name": "name", "content": "content", "overwrite": "overwrite", "perms": "perms", "0755": "493"},
 			calls: map[string]string{"filepath.Dir": "Pgs.FilePath.dir", "upd:p.fs.MkdirAll": "mkdirAllMode", "qry:afero.Exists": "Pgs.Persist.FS.exists", "upd:afero.WriteFile": "Pgs.Persist.FS.write"},
 			ignore: []string{"p.Debug("}},
+		// C05 / C06: the dependency closures of message.go / enum.go
+		{file: "message.go", recv: "msg", name: "getDependents", lean: "msg_getDependents", rn: "m", pn: []string{"set"}, fuelled: true, mode: "setret",
+			binders: "(dependents : Pgs.AST.Ref → List Pgs.AST.Ref)", ret: "Nat → Pgs.AST.Ref → List Pgs.AST.Ref → List Pgs.AST.Ref",
+			exprs: map[string]string{"m.dependents": "(dependents self)", "set": "set"},
+			calls: map[string]string{"visit:getDependents": "msg_getDependents dependents fuel"}},
+		{file: "message.go", recv: "msg", name: "getDependencies", lean: "msg_getDependencies", rn: "m", pn: []string{"set"}, fuelled: true, mode: "setret",
+			binders: "(dependencies : Pgs.AST.Ref → List Pgs.AST.Ref)", ret: "Nat → Pgs.AST.Ref → List Pgs.AST.Ref → List Pgs.AST.Ref",
+			exprs: map[string]string{"m.dependencies": "(dependencies self)", "set": "set"},
+			calls: map[string]string{"visit:getDependencies": "msg_getDependencies dependencies fuel"}},
+		{file: "message.go", recv: "", name: "messageSetToSlice", lean: "messageSetToSlice", pn: []string{"name", "set"},
+			binders: "(name : Pgs.AST.Ref) (set : List Pgs.AST.Ref)", ret: "List Pgs.AST.Ref",
+			exprs: map[string]string{"set": "set", "name": "name", "filter:fqn != name": "(d != name)"}},
+		clSpec("message.go", "msg", "m", "populateDependentsCache", "msg_populateDependentsCache", "m.dependentsCache", "m.getDependents"),
+		clSpec("message.go", "msg", "m", "populateDependenciesCache", "msg_populateDependenciesCache", "m.dependenciesCache", "m.getDependencies"),
+		{file: "enum.go", recv: "enum", name: "populateDependentsCache", lean: "enum_populateDependentsCache", rn: "e", mode: "cache", state: "e.dependentsCache",
+			binders: "(dependents : Pgs.AST.Ref → List Pgs.AST.Ref) (getDependents : Pgs.AST.Ref → List Pgs.AST.Ref → List Pgs.AST.Ref) (self : Pgs.AST.Ref) (cache : Option (List Pgs.AST.Ref))", ret: "Option (List Pgs.AST.Ref)",
+			exprs: map[string]string{"e.dependentsCache != nil": "cache.isSome", "map[string]Message{}": "([] : List Pgs.AST.Ref)", "set": "set", "e.dependents": "(dependents self)"},
+			calls: map[string]string{"visit:getDependents": "getDependents"}},
+		{file: "enum.go", recv: "enum", name: "Dependents", lean: "enum_Dependents", rn: "e", mode: "cacheq", state: "e.dependentsCache",
+			binders: "(dependents : Pgs.AST.Ref → List Pgs.AST.Ref) (getDependents : Pgs.AST.Ref → List Pgs.AST.Ref → List Pgs.AST.Ref) (self : Pgs.AST.Ref) (cache : Option (List Pgs.AST.Ref))",
+			ret: "Option (List Pgs.AST.Ref) × List Pgs.AST.Ref",
+			exprs: map[string]string{"e.dependentsCache": "(cache.getD [])", "\"\"": "Pgs.AST.noRef"},
+			calls: map[string]string{"updstate:e.populateDependentsCache": "enum_populateDependentsCache dependents getDependents self", "messageSetToSlice": "messageSetToSlice"}},
+		accSpec("message.go", "msg", "m", "Dependents", "msg_Dependents", "m.populateDependentsCache", "msg_populateDependentsCache", "m.dependentsCache", "m.FullyQualifiedName()", "self"),
+		accSpec("message.go", "msg", "m", "Dependencies", "msg_Dependencies", "m.populateDependenciesCache", "msg_populateDependenciesCache", "m.dependenciesCache", "m.FullyQualifiedName()", "self"),
 		// C09
 		{file: "proto.go", rn: "s", recv: "Syntax", name: "SupportsRequiredPrefix", lean: "syntax_SupportsRequiredPrefix", binders: "(s : Pgs.Bytes)", ret: "Bool",
 			exprs: map[string]string{"s": "s", "Proto2": "Pgs.Generated.syntaxProto2"}},
@@ -1690,7 +1847,7 @@ func hydratePhases(repo string) (string, error) {
 func genCode(repo string) (map[string]string, error) {
 	files := map[string]string{}
 	var b strings.Builder
-	b.WriteString("import PgsVerif.Model.FilePath\nimport PgsVerif.Model.Context\nimport PgsVerif.Model.Params\nimport PgsVerif.Model.GoNames\nimport PgsVerif.Model.Persist\nimport PgsVerif.Generated.Tables\n")
+	b.WriteString("import PgsVerif.Model.FilePath\nimport PgsVerif.Model.Context\nimport PgsVerif.Model.Params\nimport PgsVerif.Model.GoNames\nimport PgsVerif.Model.Persist\nimport PgsVerif.Model.Closure\nimport PgsVerif.Generated.Tables\n")
 	b.WriteString("/- GENERATED by harness/cmd/factgen (codegen.go) from the current source of protoc-gen-star. Do not edit:\n")
 	b.WriteString("   regenerated (and overwritten) on every run of ./check and of setup.sh. -/\n")
 	b.WriteString("set_option linter.unusedVariables false\nnamespace Pgs.GenCode\n\n")
